@@ -179,6 +179,14 @@ func runC17(c *Ctx) error {
 			accepted = append(accepted, string(jb))
 		}
 		fam2.Eval(label+string(jb), len(doc) > 3)
+		// the key paths the parser defines are the same whichever entry point reads the document: from a file path
+		// (nfpm.ParseFile, `nfpm package -f`) as from a reader
+		if fp := filepath.Join(c.Tmp, "c17-doc.yaml"); os.WriteFile(fp, yb, 0o644) == nil {
+			if _, ferr := nfpm.ParseFileWithEnvMapping(fp, func(string) string { return "" }); (ferr == nil) != (perr == nil) {
+				c.Rep.Find(report.Finding{Property: "C17", Family: "accepts-implies-validates", Shape: "file-route-differs-from-reader-route",
+					What: fmt.Sprintf("nfpm.ParseFile and nfpm.Parse disagree on the document (file: %v; reader: %v): the schema describes one set of key paths", ferr, perr), Input: map[string]any{"document": string(yb)}})
+			}
+		}
 		if perr == nil && len(verrs) > 0 {
 			c.Rep.Find(report.Finding{Property: "C17", Family: "accepts-implies-validates", Shape: "schema-rejects-accepted-document:" + strings.SplitN(strings.SplitN(verrs[0], ": ", 2)[1], " ", 3)[0],
 				What: "the parser accepts the document but the schema rejects it: " + strings.Join(verrs, "; "), Input: map[string]any{"document": string(yb)}})
